@@ -9,7 +9,7 @@ from ..paths import enumerate_paths, Path
 from ..consteval import fold_expr, Regex
 from .. import rx
 from ..report import RuleCtx
-from .c02_model import NodeModel, MPARSER, params_of
+from .c02_model import model_for, NodeModel, MPARSER, params_of
 
 TWO_NEWLINES = r'[\s\S]*\n[\s\S]*\n[\s\S]*'
 
@@ -42,6 +42,39 @@ def lexer_tables(ctx: RuleCtx) -> T.Tuple[T.List[T.Tuple[str, T.List[Regex]]], T
     if not spec or not single:
         raise Undecided('lexer tables not found in Lexer.__init__')
     return spec, single, kws
+
+
+def fold_cond(repo: T.Any, mod: T.Any, e: ast.AST, env: T.Dict[str, T.Any]) -> T.Optional[bool]:
+    """Truth of a condition over variables bound in `env` (a declared token id) and constants, through and/or/not, comparison
+    chains, ==/!=/in/not in/is; None when it depends on anything else."""
+    if isinstance(e, ast.BoolOp):
+        vals = [fold_cond(repo, mod, v, env) for v in e.values]
+        if isinstance(e.op, ast.And):
+            return False if any(v is False for v in vals) else (True if all(v is True for v in vals) else None)
+        return True if any(v is True for v in vals) else (False if all(v is False for v in vals) else None)
+    if isinstance(e, ast.UnaryOp) and isinstance(e.op, ast.Not):
+        v = fold_cond(repo, mod, e.operand, env)
+        return None if v is None else not v
+    try:
+        if isinstance(e, ast.Compare):
+            vals2 = [fold_expr(repo, mod, x, env=env) for x in [e.left] + list(e.comparators)]
+            res = True
+            for op, a, b in zip(e.ops, vals2, vals2[1:]):
+                if isinstance(op, (ast.Eq, ast.Is)):
+                    r = a == b
+                elif isinstance(op, (ast.NotEq, ast.IsNot)):
+                    r = a != b
+                elif isinstance(op, ast.In):
+                    r = a in b
+                elif isinstance(op, ast.NotIn):
+                    r = a not in b
+                else:
+                    return None
+                res = res and r
+            return bool(res)
+        return bool(fold_expr(repo, mod, e, env=env))
+    except (Undecided, TypeError):
+        return None
 
 
 def lex_roles(mod: T.Any) -> T.Dict[str, T.Any]:
@@ -98,9 +131,8 @@ def _feasible(ctx: RuleCtx, mod: T.Any, p: Path, tid: str, mode: str, spec_loop:
                     return None
                 continue
             if R['tid'] in names and names <= {R['tid']} and cur is not None:
-                try:
-                    v = bool(fold_expr(ctx.repo, mod, ev.node, env={R['tid']: cur}))
-                except Undecided:
+                v = fold_cond(ctx.repo, mod, ev.node, {R['tid']: cur})
+                if v is None:
                     raise Undecided(f'Lexer.lex: cannot evaluate `{short(ev.node)}` for token id {cur}')
                 if v != ev.val:
                     return None
@@ -113,6 +145,10 @@ def _feasible(ctx: RuleCtx, mod: T.Any, p: Path, tid: str, mode: str, spec_loop:
             continue
         st = ev.node
         info['stmts'].append(st)
+        if isinstance(st, ast.Assign) and isinstance(st.targets[0], (ast.Tuple, ast.List)):
+            for t in st.targets[0].elts:
+                if isinstance(t, ast.Name) and t.id in (R['lineno'], R['line_start']):
+                    info['assigned'].append(('lineno' if t.id == R['lineno'] else 'line_start', st))
         if isinstance(st, (ast.Assign, ast.AugAssign)):
             tg = st.targets[0] if isinstance(st, ast.Assign) else st.target
             if isinstance(tg, ast.Name):
@@ -141,6 +177,61 @@ def _newline_guard(info: T.Dict[str, T.Any]) -> bool:
         if "'\\n'" in norm(node) or names_in(node) & nl_names:
             return True
     return False
+
+
+def strip_table(ctx: RuleCtx) -> T.Dict[str, T.Tuple[str, str]]:
+    """For every token id of the regex table: the text the lexer removes from the start and the end of the matched text before it
+    becomes Token.value - the number of characters from the `value = value[a:-b]` statements on the feasible paths of that id,
+    the characters themselves from the literal prefix/suffix of the token regex.  Ids without such a statement map to ('', '')."""
+    import re._constants as sc
+    mod = ctx.repo.module(MPARSER)
+    spec, single, _ = lexer_tables(ctx)
+    R = lex_roles(mod)
+    paths = enumerate_paths(R['while'].body, unroll=1)
+    out: T.Dict[str, T.Tuple[str, str]] = {}
+    for tid, regs in spec:
+        cuts: T.Set[T.Tuple[int, int]] = set()
+        for p in paths:
+            info = _feasible(ctx, mod, p, tid, 'regex', R['spec_loop'], R)
+            if info is None:
+                continue
+            lo = hi = 0
+            for st in info['stmts']:
+                if isinstance(st, (ast.Assign, ast.AugAssign)) and norm(st.targets[0] if isinstance(st, ast.Assign) else st.target) == R['value']:
+                    v = st.value
+                    if isinstance(st, ast.Assign) and isinstance(v, ast.Call) and call_method(v) == 'group' and not v.args:
+                        continue    # value = <match>.group(): the matched text itself
+                    if not (isinstance(st, ast.Assign) and isinstance(v, ast.Subscript) and norm(v.value) == R['value'] and isinstance(v.slice, ast.Slice)
+                            and v.slice.step is None):
+                        raise Undecided(f'Lexer.lex: token `{tid}`: `{short(st)}` changes the token text in a way that is not a slice')
+                    a = fold_expr(ctx.repo, mod, v.slice.lower, env={R['tid']: tid}) if v.slice.lower is not None else 0
+                    b = fold_expr(ctx.repo, mod, v.slice.upper, env={R['tid']: tid}) if v.slice.upper is not None else 0
+                    if not (isinstance(a, int) and isinstance(b, int) and a >= 0 and b <= 0):
+                        raise Undecided(f'Lexer.lex: token `{tid}`: slice bounds of `{short(st)}`')
+                    lo, hi = lo + a, hi - b
+            cuts.add((lo, hi))
+        if len(cuts) != 1:
+            raise Undecided(f'Lexer.lex: token `{tid}`: stripped lengths differ between paths or no path found: {sorted(cuts)}')
+        lo, hi = cuts.pop()
+        pres: T.Set[str] = set()
+        posts: T.Set[str] = set()
+        for r in regs:
+            items = list(rx.parse(r.pattern, r.flags))
+            pre = rx.literal_prefix(items)
+            post = ''
+            for op, av in reversed(items):
+                if op is sc.LITERAL:
+                    post = chr(av) + post
+                else:
+                    break
+            if len(pre) < lo or len(post) < hi:
+                raise Undecided(f'Lexer.lex: token `{tid}`: {lo}/{hi} characters are stripped but the regex fixes only {pre!r}...{post!r}')
+            pres.add(pre[:lo])
+            posts.add(post[len(post) - hi:] if hi else '')
+        if len(pres) != 1 or len(posts) != 1:
+            raise Undecided(f'Lexer.lex: token `{tid}`: alternative regexes with different delimiters')
+        out[tid] = (pres.pop(), posts.pop())
+    return out
 
 
 def check_lines(ctx: RuleCtx) -> None:
@@ -198,11 +289,8 @@ def check_lines(ctx: RuleCtx) -> None:
 def _arm_test(lex: ast.AST, tid: str, ctx: RuleCtx, mod: T.Any, R: T.Dict[str, T.Any]) -> T.Any:
     for n in ast.walk(lex):
         if isinstance(n, ast.If) and names_in(n.test) == {R['tid']}:
-            try:
-                if fold_expr(ctx.repo, mod, n.test, env={R['tid']: tid}):
-                    return n.test
-            except Undecided:
-                continue
+            if fold_cond(ctx.repo, mod, n.test, {R['tid']: tid}):
+                return n.test
     return f'(no branch for {tid})'
 
 
@@ -211,8 +299,8 @@ def _check_formula(ctx: RuleCtx, mod: T.Any, lex: ast.AST, tid: str, mode: str, 
     stmts = info['stmts']
     ln = [st for n, st in info['assigned'] if n == 'lineno']
     ls = [st for n, st in info['assigned'] if n == 'line_start']
-    if len(ln) != 1 or len(ls) != 1:
-        raise Undecided(f'Lexer.lex: several updates of lineno/line_start for {tid}')
+    if len(ln) != 1 or len(ls) != 1 or ln[0] is ls[0]:
+        raise Undecided(f'Lexer.lex: several (or a combined) update of lineno/line_start for {tid}')
     ln, ls = ln[0], ls[0]
     # the token text: `value`, possibly stripped at the end before `lines = value.split('\n')`
     split = None
@@ -237,6 +325,12 @@ def _check_formula(ctx: RuleCtx, mod: T.Any, lex: ast.AST, tid: str, mode: str, 
         raise Undecided(f'Lexer.lex: token `{tid}`: line bookkeeping `{short(ln)}` / `{short(ls)}` is not derived from a split of the token text')
     want_inc = ({f'len({split})': 1}, -1)
     want_start = ({R['loc']: 1, f'len({split}[-1])': -1}, -stripped_before)
+    alt_inc = ({f"{R['value']}.count('\\n')": 1}, 0)
+    if inc == alt_inc:
+        inc = want_inc
+    if set(inc[0]) != set(want_inc[0]) or set(start[0]) != set(want_start[0]):
+        raise Undecided(f'Lexer.lex: token `{tid}`: `{short(ln)}` / `{short(ls)}` compute the line bookkeeping from other quantities than '
+                        f'len({split}), len({split}[-1]) and {R["loc"]}; not compared')
     ok = inc == want_inc and start == want_start
     want = R['loc'] + f' - len({split}[-1])' + (f' - {stripped_before}' if stripped_before else '')
     ctx.require(ok, f'token `{tid}`: lineno += newlines in the text, line_start = {want}', mod, 'Lexer.lex', ls,
@@ -311,7 +405,7 @@ SPLICED = {'FunctionNode': 'full', 'ArrayNode': 'full', 'DictNode': 'full', 'Par
 
 
 def check_extents(ctx: RuleCtx, spliced: T.Optional[T.Dict[str, str]] = None) -> None:
-    model = NodeModel(ctx.repo)
+    model = model_for(ctx.repo)
     mod = model.mod
     spec, single, _ = lexer_tables(ctx)
     ctx.require(all(len(k) == 1 for k in single), 'every single-character token has length 1 (the `+1` of the extents)', mod, 'Lexer.__init__',
@@ -326,6 +420,8 @@ def check_extents(ctx: RuleCtx, spliced: T.Optional[T.Dict[str, str]] = None) ->
     sym_init = model.find('SymbolNode', '__init__')
     passes_end = any(isinstance(c, ast.Call) and (len(c.args) > 3 or c.keywords) for c in walk_no_nested(sym_init[1]) if isinstance(c, ast.Call)
                      and isinstance(c.func, ast.Attribute) and c.func.attr == '__init__') if sym_init else True
+    if set(dflt) != {'self.end_lineno', 'self.end_colno'}:
+        raise Undecided(f'{model.root}.__init__: how end_lineno/end_colno default is not understood')
     ctx.require(sym_end_is_start and not passes_end, 'SymbolNode: end position defaults to the start position', mod, f'{model.root}.__init__', rfn,
                 'the end position of a symbol no longer defaults to its start: `x.end_colno + 1` and `x.colno + 1` differ')
     for cls, mode in (spliced or SPLICED).items():
@@ -350,19 +446,32 @@ def check_extents(ctx: RuleCtx, spliced: T.Optional[T.Dict[str, str]] = None) ->
         pf, pl = stored[first_f], stored[last_f]
         args = [resolve_locals(fn, a) for a in args]
         kw = {k: resolve_locals(fn, v) for k, v in kw.items()}
+        others = [p_ for p_ in params_of(fn)[1:] if p_ not in (pf, pl)]
+
+        def judge(e: T.Optional[ast.AST], good: T.List[T.Tuple[T.Dict[str, int], int]], owner: str, what: str, msg: str) -> None:
+            """ok when the linear form of `e` is one of `good`; violation only on positive evidence (the right operand with another
+            constant, or the position of a different constructor parameter); anything else is not understood."""
+            if e is None:
+                raise Undecided(f'{cls}.__init__: the {what} is not passed to the base constructor')
+            lf = linear(e)
+            if lf in good:
+                ctx.ok(f'{cls}: {what} is `{short(e)}`')
+                return
+            bases = {t.split('.')[0] for t in lf[0]}
+            if set(lf[0]) in [set(g[0]) for g in good] or (bases and bases <= set(others + ([pl] if owner == pf else [pf]))):
+                ctx.violation(mod, f'{cls}.__init__', f'{what} of {cls}', msg.format(got=short(e)), c)
+                return
+            raise Undecided(f'{cls}.__init__: the {what} `{short(e)}` is not a position of a constructor parameter plus a constant')
         if mode == 'full':
-            ok = len(args) >= 2 and norm(args[0]) == f'{pf}.lineno' and norm(args[1]) == f'{pf}.colno'
-            ctx.require(ok, f'{cls}: starts at its first field `{first_f}`', mod, f'{cls}.__init__', f'start of {cls}',
-                        f'{cls} starts at ({short(args[0]) if args else "?"}, {short(args[1]) if len(args) > 1 else "?"}); its textually first field is '
-                        f'`{first_f}` (parameter {pf})', c)
+            if len(args) < 2:
+                raise Undecided(f'{cls}.__init__: start position not passed positionally')
+            judge(args[0], [({f'{pf}.lineno': 1}, 0)], pf, 'start line', f'{cls} starts on line `{{got}}`; its textually first field is `{first_f}` (parameter {pf})')
+            judge(args[1], [({f'{pf}.colno': 1}, 0)], pf, 'start column', f'{cls} starts at column `{{got}}`; its textually first field is `{first_f}` (parameter {pf})')
         el, ec = kw.get('end_lineno'), kw.get('end_colno')
         if el is None and len(args) > 3:
             el = args[3]
         if ec is None and len(args) > 4:
             ec = args[4]
-        ok = el is not None and norm(el) in (f'{pl}.lineno', f'{pl}.end_lineno')
-        ctx.require(ok, f'{cls}: ends on the line of its last field `{last_f}`', mod, f'{cls}.__init__', f'end line of {cls}',
-                    f'{cls} end line is `{short(el)}`; the closing token is `{last_f}` (parameter {pl})', c)
-        ok = ec is not None and linear(ec) in (({f'{pl}.colno': 1}, 1), ({f'{pl}.end_colno': 1}, 1))
-        ctx.require(ok, f'{cls}: ends one past the column of `{last_f}` (token length 1)', mod, f'{cls}.__init__', f'end column of {cls}',
-                    f'{cls} end column is `{short(ec)}`; it must be the column of the closing token `{last_f}` plus its length 1', c)
+        judge(el, [({f'{pl}.lineno': 1}, 0), ({f'{pl}.end_lineno': 1}, 0)], pl, 'end line', f'{cls} end line is `{{got}}`; the closing token is `{last_f}` (parameter {pl})')
+        judge(ec, [({f'{pl}.colno': 1}, 1), ({f'{pl}.end_colno': 1}, 1)], pl, 'end column',
+              f'{cls} end column is `{{got}}`; it must be the column of the closing token `{last_f}` plus its length 1')
